@@ -93,6 +93,27 @@ def worker_cmd(binary, args):
                             env=env, stdout=subprocess.PIPE, stderr=subprocess.STDOUT, text=True, cwd=BUILD)
 
 
+def crash_info(output):
+    """If a worker died from a Go panic whose innermost non-runtime frame is maddy (not harness) code, return the function name."""
+    i = output.find("panic:")
+    if i < 0:
+        return None
+    msg = output[i:i + 200].splitlines()[0]
+    for ln in output[i:].splitlines():
+        ln = ln.strip()
+        if ln.startswith("github.com/foxcpp/maddy/"):
+            if "/verifsim/" in ln:
+                return None
+            fn = ln[len("github.com/foxcpp/maddy/"):]
+            fn = fn.split("(0x")[0].split("({")[0]
+            fn = fn.rsplit("/", 1)[-1]
+            fn = re.sub(r"\.func\d+(\.\d+)*$", "", fn)
+            return fn, msg
+        if ln.startswith("created by"):
+            break
+    return None
+
+
 def repo_head():
     r = run(["git", "-C", REPO, "rev-parse", "HEAD"])
     d = run(["git", "-C", REPO, "status", "--porcelain"])
@@ -133,6 +154,20 @@ def main():
         if part is None:
             harness_error("replay file names world %s which %s does not use" % (rf["world"], prop))
         binary, _ = build_world(part["pkg"])
+        if rf.get("crash"):
+            out = os.path.join(BUILD, "replay_out.json")
+            args = {"prop": prop, "world": rf["world"], "mode": "one", "seed": rf["batch_seed"], "start": rf["index"], "out": out, "knobs": rf.get("knobs") or {}, "extra": {}}
+            p = worker_cmd(binary, args)
+            so, _ = p.communicate()
+            ci = crash_info(so) if p.returncode != 0 else None
+            if ci and "%s/process-crash/%s" % (prop, ci[0]) == rf["violation_key"]:
+                print("process crash reproduced: " + ci[1])
+                print("VIOLATION property=%s replay=%s" % (prop, os.path.abspath(a.replay)))
+                sys.exit(1)
+            if p.returncode != 0 and not ci:
+                harness_error("replay process failed (exit %s):\n%s" % (p.returncode, so[-3000:]))
+            print("not reproduced (no crash on this replay)")
+            sys.exit(0)
         out = os.path.join(BUILD, "replay_out.json")
         args = {"prop": prop, "world": rf["world"], "mode": "replay", "replay": os.path.abspath(a.replay), "out": out, "verbose": a.verbose}
         p = worker_cmd(binary, args)
@@ -176,9 +211,21 @@ def main():
                     "minimise_s": tcfg.get("minimise_s", 20)}
             procs.append((worker_cmd(binary, args), out, j))
         t0 = time.time()
+        args_seed = seed ^ part.get("seed_salt", 0)
         for p, out, j in procs:
             so, _ = p.communicate()
             if p.returncode != 0 or not os.path.exists(out):
+                ci = crash_info(so)
+                cur = out + ".cur"
+                if ci and os.path.exists(cur):
+                    # the simulated process (= this worker) was killed by a panic in maddy code
+                    c = json.load(open(cur))
+                    if not c.get("replay"):
+                        total["violations"].append({"key": "%s/process-crash/%s" % (prop, ci[0]), "detail": "maddy crashed the process: %s" % ci[1],
+                                                    "seed": c["seed"], "index": c["index"], "knobs": c.get("knobs") or {}, "tape": None, "trace": so[so.find("panic:"):][:3000].splitlines(),
+                                                    "event_hash": "", "tape_len": 0, "orig_tape_len": 0, "world": part["world"], "crash": True, "batch_seed": args_seed})
+                        total["runs"] += 1
+                        continue
                 total["harness"].append("worker %d of world %s exited %s:\n%s" % (j, part["world"], p.returncode, so[-5000:]))
                 continue
             s = json.load(open(out))
@@ -221,7 +268,7 @@ def main():
         rf = {"property": prop, "world": v["world"], "tier": tier, "seed": v["seed"], "index": v["index"], "knobs": v.get("knobs") or {},
               "extra": {}, "tape": v["tape"], "violation_key": key, "detail": v["detail"], "event_hash": v["event_hash"],
               "trace": v.get("trace") or [], "repo_head": head, "go": GO, "minimised": v.get("minimised", False),
-              "tape_len": v["tape_len"], "orig_tape_len": v["orig_tape_len"]}
+              "tape_len": v["tape_len"], "orig_tape_len": v["orig_tape_len"], "crash": v.get("crash", False), "batch_seed": v.get("batch_seed")}
         json.dump(rf, open(fn, "w"), indent=1, ensure_ascii=False)
         replays.append((key, fn))
     wall = time.time() - t_start
